@@ -282,6 +282,7 @@ def tally(rep, case, impl_res, ans):
         rep.count('op:' + o['k'] + ((':' + o['kind'] + ('(delimiter!=suffix)' if o.get('mismatch') else '')) if o['k'] == 'write_file' else ''))
     rep.count('history_len:%d' % len(case['ops']))
     rep.count('unit_factor:%s' % case.get('factor', 1.))
+    rep.count('spike_times_stored_as:%s' % ('seconds (spikes.times.npy)' if case['spec'].get('times_in_seconds') else 'samples (spike_times.npy)'))
     if 'ok' in impl_res and 'ok' in ans:
         for v, m in zip(impl_res['ok']['views'], ans['ok']['views']):
             rep.count('reload:store_%s' % ('queried%s' % ((' (single spike)' if len(v['store']['ids']) == 1 else '') + (' (single column)' if len(v['store']['channels'][0]) == 1 else '')) if v.get('store') else 'absent'))
@@ -427,5 +428,11 @@ def gen(tier, rng):
             # a narrow channel neighbourhood (params.py): the subset store then holds only the first 2..3 channels of
             # each template, so WHICH channels are stored matters
             spec['params_extra'] = dict(spec.get('params_extra') or {}, n_closest_channels=rng.pick([1, 2, 3]))
+        if i % 5 == 3:
+            # spike times given in seconds only (spikes.times.npy next to KiloSort-named files): the samples every
+            # reload shows are the ones recovered by rounding
+            rate = float(spec['sample_rate'])
+            if all(int(np.round(np.float64(x / rate) * rate)) == x for x in spec['spike_samples']):
+                spec['times_in_seconds'] = True
         yield dict(p=PID, spec=spec, ops=rand_history(rng, spec, rng.randrange(2, 7 if q else 9)),
                    factor=rng.pick([1., 1., 2., 0.5]))
